@@ -121,6 +121,7 @@ class DictV(AVal):
     keys: AVal | None = None  # summary: key collection
     val: AVal | None = None
     ordered: bool = False
+    born: int = -1  # abstract-loop depth at which this (concrete) dictionary was created: stores at the same depth happen in straight-line / unrolled code
 
     def __repr__(self):
         if self.items is not None:
